@@ -151,6 +151,23 @@ PROPS = {
         "assumptions": ["cross-codec fixpoint is only demanded when every string of the accepted message is valid UTF-8 (JSON cannot carry anything else)",
                         "a per-input watchdog of 20 s stands for 'hangs'; runtime fatals (stack exhaustion, OOM) kill the shard process and are reported by the driver as process-crash"],
     },
+    "C15": {
+        "level": "fault_enumeration",
+        "groups": [g("main", "c15", q=16, t=32, run="^Test(Announce|Prop)$", gomaxprocs=[4, 4, 2, 16])],
+        "parallel": 32,
+        "timeout": {"quick": 400, "thorough": 2400},
+        "rule": ("generated: (keepalive) wire.Connect and iscp.Connect level; dead peer: interval x timeout in {20,35,50,100 ms}^2, the peer answers the "
+                 "first k in 0..5 pings then falls silent or answers only after 2-3x the timeout; live peer: interval {20,35,50 ms}, timeout {200,400 ms}, "
+                 "every pong delayed by 0/25/50 %% of the timeout over 30 intervals, broker-originated pings with distinctive ids at random moments; "
+                 "concurrent application traffic in half of the cases. Oracle: detection (Closed / redial + disconnected event) no later than "
+                 "interval + timeout + 2 s after the last answered ping (monotonic clock, reported only if it re-occurs in 3 consecutive runs); "
+                 "no close / redial with a live peer; one pong per broker ping with the same id. (announce, exhaustive grid) 9x9 configured "
+                 "interval/timeout values {0, 999ms, 1s, 1.5s, 2.9s, 10s, 59.999s, 90min, 2^32-1 s} x {wire, iscp}: ConnectRequest carries the "
+                 "configured values truncated to whole seconds (defaults when unset). Non-trivial = silence starting after >= 1 answered ping, or "
+                 "delayed pongs with traffic, or a grid cell; distinct by case hash."),
+        "assumptions": ["live-peer cases use timeouts >= 200 ms with pong delays <= 50 % so that scheduling hiccups of the harness cannot fake a dead peer",
+                        "time bounds use 2 s slack and the 3-run confirmation protocol; a miss that does not re-occur is counted as timing_inconclusive"],
+    },
     "C16": {
         "level": "exploration",
         "groups": [g("main", "c16", q=8, t=32, run="^Test(Prop)$", gomaxprocs=[4, 1, 2, 16])],
